@@ -17,6 +17,7 @@ import (
 	"strings"
 	"sync"
 	"sync/atomic"
+	"time"
 
 	"verif/internal/ev"
 	"verif/internal/lite"
@@ -605,7 +606,7 @@ func c06Run(r *ev.Run, c *mc.Ctx, wk *c06Worker, sc *c06Scenario, img []byte) c0
 }
 
 func runC06(r *ev.Run) {
-	r.Rule = "operation under test H1 in {Select, SelectDone, SelectRowid, IndexedSelect, IndexedSelectEq, PKSelect, Columns, on rowid and WITHOUT ROWID tables with overflow rows} x exit paths {normal, stop at row k for every k, callback panics at row k, no such table/column/index, fault at page read k for every k} run on the real file pager under a tracing pager (scheduling points: before/after every lock, unlock, page read, reserved-lock probe, and every row callback); other participants in atomic steps: W = real SQLite writer in another process (BEGIN IMMEDIATE, INSERT, COMMIT with busy_timeout 0), H2 = second sqlittle handle in the same process (Open, RLock, RUnlock, Close / a whole Select), H3 = sqlittle handle in another process; every interleaving with preemption bound 2 (pairs: unbounded in thorough); invariants at every point from /proc/locks: inside the call the process holds READ on the whole shared range, every page read lies inside the locked interval, a COMMIT attempted inside is BUSY, after return nothing is held on the pending byte and shared range and the writer can commit; select-like calls made from inside a row callback on the same handle (alone and against the writer); the same handle calling twice (after a refused, an overlapped and a plain first call); plus database/sql result sets left open after k rows. non-trivial = executions with at least one preemption or a non-normal exit path"
+	r.Rule = "operation under test H1 in {Select, SelectDone, SelectRowid, IndexedSelect, IndexedSelectEq, PKSelect, Columns, on rowid and WITHOUT ROWID tables with overflow rows} x exit paths {normal, stop at row k for every k, callback panics at row k, no such table/column/index, fault at page read k for every k} run on the real file pager under a tracing pager (scheduling points: before/after every lock, unlock, page read, reserved-lock probe, and every row callback); other participants in atomic steps: W = real SQLite writer in another process (BEGIN IMMEDIATE, INSERT, COMMIT with busy_timeout 0), H2 = second sqlittle handle in the same process (Open, RLock, RUnlock, Close / a whole Select), H3 = sqlittle handle in another process; every interleaving with preemption bound 2 (pairs: unbounded in thorough); invariants at every point from /proc/locks: inside the call the process holds READ on the whole shared range, every page read lies inside the locked interval, a COMMIT attempted inside is BUSY, after return nothing is held on the pending byte and shared range and the writer can commit; select-like calls made from inside a row callback on the same handle (alone and against the writer); the same handle calling twice (after a refused, an overlapped and a plain first call); plus database/sql result sets left open after k rows; plus every select-like call on a handle the caller does not keep a reference to, with a forced garbage collection in every row callback. non-trivial = executions with at least one preemption or a non-normal exit path"
 	img := c06Image()
 	ops := c06Ops()
 	// exit-path scenarios, alone (sequential monitor)
@@ -751,6 +752,7 @@ func runC06(r *ev.Run) {
 	r.Set("schedules", totalExec)
 	r.Set("schedules_per_scenario", perScenario)
 	c06Driver(r, dir, img)
+	c06Unreferenced(r, dir, img)
 }
 
 // c06Driver: database/sql result sets left open after k rows hold the lock;
@@ -819,4 +821,73 @@ func c06HotPair(img []byte) ([]byte, []byte) {
 		}
 	})
 	return c06HotDB, c06HotJ
+}
+
+// c06Unreferenced: the caller does not hold on to the handle (no variable, no deferred Close): the only
+// reference is the receiver of the call in progress. A garbage collection - forced here in every row
+// callback, followed by a moment for finalizers to run - must not take the file descriptor, and with it the
+// lock, away from the call. Plain sqlittle.Open handles on the real file, every select-like call.
+func c06Unreferenced(r *ev.Run, dir string, img []byte) {
+	// (a file of its own for every call: descriptors of garbage handles of the SAME file that are closed by the
+	// collector would drop the lock as well - that is known finding F14, not what is looked at here)
+	path := ""
+	mypid := os.Getpid()
+	type call struct {
+		name string
+		run  func(cb func()) error
+	}
+	open := func() *sqlittle.DB {
+		h, err := sqlittle.Open(path)
+		if err != nil {
+			return nil
+		}
+		return h
+	}
+	calls := []call{
+		{"Select", func(cb func()) error { return open().Select("t", func(sqlittle.Row) { cb() }, "id", "pad") }},
+		{"SelectDone", func(cb func()) error {
+			return open().SelectDone("t", func(sqlittle.Row) bool { cb(); return false }, "id", "pad")
+		}},
+		{"IndexedSelect", func(cb func()) error {
+			return open().IndexedSelect("t", "t_v", func(sqlittle.Row) { cb() }, "id", "pad")
+		}},
+		{"IndexedSelectEq", func(cb func()) error {
+			return open().IndexedSelectEq("t", "t_v", sqlittle.Key{"a"}, func(sqlittle.Row) { cb() }, "id", "pad")
+		}},
+		{"PKSelect(w)", func(cb func()) error {
+			return open().PKSelect("w", sqlittle.Key{"y"}, func(sqlittle.Row) { cb() }, "pad")
+		}},
+		{"Select(w)", func(cb func()) error { return open().Select("w", func(sqlittle.Row) { cb() }, "k", "pad") }},
+	}
+	for ci, c := range calls {
+		path = filepath.Join(dir, fmt.Sprintf("unreferenced%d.sqlite", ci))
+		os.WriteFile(path, img, 0o644)
+		rows := 0
+		lost := ""
+		err := c.run(func() {
+			rows++
+			runtime.GC()
+			runtime.Gosched()
+			time.Sleep(2 * time.Millisecond) // the finalizer goroutine gets its turn
+			runtime.GC()
+			if lost != "" {
+				return
+			}
+			if locks, lerr := FileLocks(path); lerr == nil {
+				if me := StateOf(locks, mypid); !me.SharedRead {
+					lost = fmt.Sprintf("in the callback of row %d, after a garbage collection, the process does not hold the shared lock (%s)", rows, me.Description)
+				}
+			}
+		})
+		r.Eval(1)
+		r.Trans(rows)
+		r.NontrivialN(1)
+		art := map[string]interface{}{"scenario": "a handle nobody holds on to, garbage collection in every row callback", "call": c.name}
+		if lost != "" {
+			r.Violation("C06:lock-lost-to-gc:"+opKind(c.name), c.name+" on a handle the caller does not keep: "+lost, art)
+		} else if err != nil {
+			r.Violation("C06:unreferenced-handle-error:"+opKind(c.name), fmt.Sprintf("%s on a handle the caller does not keep, garbage collection in every row callback: %v after %d rows", c.name, err, rows), art)
+		}
+	}
+	runtime.GC()
 }
